@@ -154,16 +154,9 @@ def run(ctx):
     r = ctx.tlc("MC_FileCheck", "MC_FileCheck.cfg", workers=1, label="tables <= 2 rows: ShuffleLaw, LabelsTrue, prescribed issues", timeout=1800)
     cases = list(r.json_lines)
     ctx.exhaustive = True
-    with open(os.path.join(tlc.SPECS, "MC_FileCheck.cfg")) as f:
-        txt = f.read().replace("MaxRows = 2", "MaxRows = 3")
-    made = os.path.join(tlc.SPECS, "MC_FileCheck_3.cfg")
-    with open(made, "w") as f:
-        f.write(txt)
-    try:
-        rs = ctx.tlc("MC_FileCheck", "MC_FileCheck_3.cfg", workers=1, mode="simulate", simulate="num=%d" % (1500 if quick else 30000),
-                     depth=4, seed=ctx.seed + 7, label="tables with 3 rows (simulate)", timeout=3000)
-    finally:
-        os.remove(made)
+    rs = ctx.tlc("MC_FileCheck", ctx.cfg("MC_FileCheck.cfg", ("MaxRows = 2", "MaxRows = 3")), workers=1, mode="simulate",
+                 simulate="num=%d" % (1500 if quick else 30000), depth=4, seed=ctx.seed + 7, label="tables with 3 rows (simulate)",
+                 timeout=3000)
     seen = set()
     for j in rs.json_lines:
         k = json.dumps(j, sort_keys=True)
